@@ -129,7 +129,7 @@ class Pools:
 def run_cases(pools: Pools, prop: str, items: list[tuple[int, int, int]], deadline: float | None = None, on_result=None, _retry: bool = True):
     """items: (index, seed, devices).  Returns list of results (index order).  A broken pool or
     a timeout yields a harness_error result for the affected items - never a silent pass."""
-    chunk = int(os.environ.get("MDPSIM_CHUNK", "1500"))
+    chunk = int(os.environ.get("MDPSIM_CHUNK", "600"))
     if len(items) > chunk:
         # worker recycling by hand: fresh processes for every chunk of cases
         # (ProcessPoolExecutor(max_tasks_per_child=...) can deadlock on Python 3.12.1, gh-115634)
